@@ -290,6 +290,7 @@ fn print(r: &Value) -> Vec<u8> {
     let mut o: Vec<u8> = vec![];
     match r["t"].as_str().unwrap_or("") {
         "lit" => o = vbytes(&r["w"]),
+        "xterm" => o = xterm_seq(&r["k"], u(&r["mods"]), r["alt"].as_bool().unwrap_or(false)).unwrap_or_default(),
         "char" => o = utf8(u(&r["c"])),
         "kitty" => {
             if let Some(code) = kitty_code(&r["k"]) {
@@ -439,7 +440,87 @@ fn c_key(k: &Value) -> String {
         6 => "KDelete".into(),
         7 => "KInsert".into(),
         8 => "KDown".into(),
+        9 => "KEnd".into(),
+        10 => "KHome".into(),
+        11 => "KLeft".into(),
+        12 => "KPageDown".into(),
+        13 => "KPageUp".into(),
+        14 => "KRight".into(),
         _ => "KUp".into(),
+    }
+}
+
+/// mirror of Printer.xterm_seq (xterm PC-style / VT220-style key encodings)
+fn xterm_seq(k: &Value, mods: u64, alt: bool) -> Option<Vec<u8>> {
+    if mods >= 8 {
+        return None;
+    }
+    let (kind, arg) = (u(&k[0]), u(&k[1]));
+    if kind == 3 {
+        return if mods == 0 { Some(vec![127]) } else { None };
+    }
+    if kind == 5 {
+        let c = arg;
+        if mods == 2 && ((97..=122).contains(&c) || (48..=57).contains(&c)) {
+            return Some(vec![27, c as u8]);
+        }
+        if mods == 4 && (97..=122).contains(&c) {
+            return Some(vec![(c - 96) as u8]);
+        }
+        return None;
+    }
+    let fin: Option<u64> = match kind {
+        15 => Some(65),
+        8 => Some(66),
+        14 => Some(67),
+        11 => Some(68),
+        9 => Some(70),
+        10 => Some(72),
+        4 if (1..=4).contains(&arg) => Some(79 + arg),
+        _ => None,
+    };
+    let tilde: Option<u64> = match kind {
+        7 => Some(2),
+        6 => Some(3),
+        13 => Some(5),
+        12 => Some(6),
+        10 => if alt { Some(1) } else { None },
+        9 => if alt { Some(4) } else { None },
+        4 => {
+            if (1..=5).contains(&arg) {
+                if arg <= 4 && !alt { None } else { Some(10 + arg) }
+            } else if (6..=10).contains(&arg) {
+                Some(11 + arg)
+            } else if (11..=12).contains(&arg) {
+                Some(12 + arg)
+            } else {
+                None
+            }
+        }
+        _ => None,
+    };
+    match (if alt { None } else { fin }, tilde) {
+        (Some(f), _) => {
+            if mods == 0 {
+                Some(vec![27, if (80..=83).contains(&f) { 79 } else { 91 }, f as u8])
+            } else {
+                let mut o = b"\x1b[1;".to_vec();
+                o.extend(digits(mods + 1));
+                o.push(f as u8);
+                Some(o)
+            }
+        }
+        (None, Some(n)) => {
+            let mut o = b"\x1b[".to_vec();
+            o.extend(digits(n));
+            if mods != 0 {
+                o.push(b';');
+                o.extend(digits(mods + 1));
+            }
+            o.push(b'~');
+            Some(o)
+        }
+        (None, None) => None,
     }
 }
 
@@ -447,6 +528,7 @@ fn c_report(r: &Value) -> String {
     let b = |v: &Value| cbool(v.as_bool().unwrap_or(false));
     match r["t"].as_str().unwrap_or("") {
         "lit" => format!("(RLit {})", cbytes(&vbytes(&r["w"]))),
+        "xterm" => format!("(RXterm {} {} {})", c_key(&r["k"]), u(&r["mods"]), b(&r["alt"])),
         "char" => format!("(RChar {})", u(&r["c"])),
         "kitty" => format!("(RKittyKey {} {})", c_key(&r["k"]), u(&r["mods"])),
         "level" => format!("(RKeyLevel {})", u(&r["n"])),
@@ -715,6 +797,24 @@ pub fn generate(rng: &mut Rng, n: usize, tier: &str) -> Vec<Value> {
         v.push(json!({"reports": [{"t": "lit", "w": w}, {"t": "char", "c": 120}], "cuts": []}));
         if thorough || w.len() >= 3 {
             v.push(json!({"reports": [{"t": "lit", "w": w}, {"t": "lit", "w": w}], "cuts": vec![1; 2 * w.len()]}));
+        }
+    }
+    // 1b. the xterm PC-style / VT220-style reference encoding of every key x modifier mask
+    let mut xkeys: Vec<Value> = vec![json!([3, 0]), json!([6, 0]), json!([7, 0]), json!([8, 0]), json!([9, 0]), json!([10, 0]), json!([11, 0]),
+                                     json!([12, 0]), json!([13, 0]), json!([14, 0]), json!([15, 0])];
+    for n in 1..=12u64 {
+        xkeys.push(json!([4, n]));
+    }
+    for c in (97..=122u64).chain(48..=57u64) {
+        xkeys.push(json!([5, c]));
+    }
+    for k in &xkeys {
+        for mods in 0..8u64 {
+            for alt in [false, true] {
+                if xterm_seq(k, mods, alt).is_some() {
+                    v.push(json!({"reports": [{"t": "xterm", "k": k, "mods": mods, "alt": alt}, {"t": "char", "c": 121}], "cuts": []}));
+                }
+            }
         }
     }
     // 2. every DEC mode x every status
